@@ -217,7 +217,24 @@ def run_cli(lines_nl, files):
         except BaseException as e:       # a traceback: python would exit 1, but it is not a diagnostic
             status = "TRACEBACK " + type(e).__name__
         after = sorted(os.listdir("."))
-        return status, [x for x in after if x not in before], buf.getvalue()
+        created = [x for x in after if x not in before]
+        if status != 0 and not created:
+            # second invocation: existing targets and --append; a rejected program must not modify them either
+            pre = {"o.bin": b"\x12\x39", "o.cas": b"", "o.dsk": b"\xFF" * 161280}
+            for fn, content in pre.items():
+                with open(fn, "wb") as f:
+                    f.write(content)
+            ns.append = True
+            buf2 = io.StringIO()
+            try:
+                with contextlib.redirect_stdout(buf2), common.watchdog(20):
+                    assembler.main(ns)
+            except BaseException:
+                pass
+            for fn, content in pre.items():
+                if not os.path.exists(fn) or open(fn, "rb").read() != content:
+                    created.append(fn + " (modified)")
+        return status, created, buf.getvalue()
     finally:
         os.chdir(cwd)
         shutil.rmtree(td, ignore_errors=True)
@@ -314,7 +331,8 @@ def describe(tier):
         "oracle": "outcome in {image+listing+symbols, ParseError/TranslationError whose statement text names a token of the input}; any other "
                   "exception (from process, get_binary_array, get_statements, get_symbol_table) or a timeout confirmed at 4x budget is a "
                   "violation identified by (exception type, raising function); for rejected programs of (b)-(d) the command line "
-                  "(in-process assembler.main, all three output switches, private empty directory) must exit non-zero and create no file",
+                  "(in-process assembler.main, all three output switches, private empty directory) must exit non-zero and create no file, and a "
+                  "second invocation with --append onto existing bin/cas/dsk targets must leave them byte-identical",
         "rule": "complete enumeration; state = outcome class (diagnostic kind+message class / internal call site); non-trivial = terminated",
         "assumptions": ["hang budget 3 s, confirmed alone at 12 s (typical program: < 5 ms)"],
     }
